@@ -3,7 +3,7 @@ coq/Chan/MpscU.v).  Generator, shrinker split and the property MONITOR for C01/C
 (judges the implementation's outputs alone)."""
 import os
 from .flow import Engine
-from .engines_mpscb import Mon, parse_ids
+from .engines_mpscb import Mon, parse_ids, FIX_CLONE
 
 # model switch: bit1 = F-M1 repaired (clone of a closed sender is closed).  0 = the code as it is.
 FIXFLAGS = int(os.environ.get("VERIF_MPSC_FIXFLAGS", "0")) & 2
@@ -87,8 +87,10 @@ class Sim:
         elif t == "cn":
             h, h2 = int(op[1]), int(op[2])
             if self.free(h) and H[h]["tx"] and h2 not in H:
-                H[h2] = dict(tx=True, a=H[h]["a"], closed=False)
-                self.sc += 1
+                cl = FIX_CLONE and H[h]["closed"]
+                H[h2] = dict(tx=True, a=H[h]["a"], closed=cl)
+                if not cl:
+                    self.sc += 1
         elif t in ("tos", "toa"):
             h = int(op[1])
             if self.free(h) and H[h]["a"] == (t == "tos"):
@@ -296,7 +298,7 @@ class MpscuEngine(Engine):
         for op, o in zip(ops, outs):
             if not m.feed(op, o):
                 break
-        if len(outs) < len(ops) and not m.hits:
+        if len(outs) < len(ops) and not m.hits and "HANG" not in out:
             m.hit("bad-output", "only %d outputs for %d ops" % (len(outs), len(ops)))
         if len(outs) == len(ops):
             m.finish()
